@@ -122,6 +122,8 @@ class World:
     """real-code side constants (imported lazily so VERIF_REPO is honoured)"""
 
     def __init__(self):
+        import logging
+        logging.getLogger("ipv8.peerdiscovery.network").disabled = True
         from ipv8.keyvault.crypto import default_eccrypto
         from ipv8.messaging.interfaces.udp.endpoint import UDPv4Address, UDPv6Address
         from ipv8.peer import Peer
@@ -502,6 +504,7 @@ def execute(ctx: Ctx, lines, tag: str):
     (rmp '*' resolved to the stored object's addresses, qa hints filled in) and the implementation's answers"""
     spec, real = Spec(), Real()
     sent, answers = [], []
+    last = real.digest()
     for i, ln in enumerate(lines):
         t = ln.split()
         if t[0] == "rmp" and t[1].endswith(":*"):
@@ -518,8 +521,9 @@ def execute(ctx: Ctx, lines, tag: str):
             spec.mutate(t)
             sent.append(" ".join(t))
             answers.append(ans)
-            if real.digest() != spec.digest():
-                d_r, d_s = real.digest(), spec.digest()
+            last = real.digest()
+            if last != spec.digest():
+                d_r, d_s = last, spec.digest()
                 part = ["verified_peers", "_all_addresses", "services_per_peer"][[a == b for a, b in zip(d_r, d_s)].index(False)]
                 ctx.oracle_fail(f"{_MUT_SITE[t[0]]}:{part}", f"after `{' '.join(t)}` {part} is "
                                 f"{d_r[['verified_peers', '_all_addresses', 'services_per_peer'].index(part)]}, the graph implies "
@@ -528,7 +532,7 @@ def execute(ctx: Ctx, lines, tag: str):
                 ctx.count(f"oracle_fail:{_MUT_SITE[t[0]]}:{part}")
                 return sent, answers, False
         else:
-            before = real.digest()
+            before = last
             try:
                 got, objs = real.query(t)
             except Exception as e:
@@ -538,8 +542,9 @@ def execute(ctx: Ctx, lines, tag: str):
                 t[2] = got.split("{")[0] if got != "none" else "-"
             sent.append(" ".join(t))
             answers.append(got)
-            if real.digest() != before:
-                ctx.oracle_fail(f"{SITE[t[0]]}:query-mutates-state", f"`{' '.join(t)}` changed the graph: {before} -> {real.digest()}",
+            last = real.digest()
+            if last != before:
+                ctx.oracle_fail(f"{SITE[t[0]]}:query-mutates-state", f"`{' '.join(t)}` changed the graph: {before} -> {last}",
                                 {"lines": sent[:], "failing_line": i})
                 ctx.count(f"oracle_fail:{SITE[t[0]]}:query-mutates-state")
                 return sent, answers, False
@@ -639,8 +644,9 @@ EXH_ALPHABET = [
     "rmp p0:*", "rmp p1:*", f"rma {A0}", f"rma {A2}",
     f"qa {A0} ?", f"qa {A1} ?", "qs s1", "qw s1 0", "qw s2 0", "qi p0", "qi p1", "qk p0",
 ]
-EXH_SWEEP = ([f"qk p{k}" for k in (0, 1, 2)] + [f"qi p{k}" for k in (0, 1, 2)] + [f"qa {a} ?" for a in (A0, A1, A2)]
+EXH_SWEEP = ([f"qk p{k}" for k in (0, 1)] + [f"qi p{k}" for k in (0, 1)] + [f"qa {a} ?" for a in (A0, A1, A2)]
              + ["qs s1", "qs s2", "qw s1 0", "qw s2 0", "qw s1 1", "qw - 0", "snap"])
+EXH_AGAIN = ["qk p0", "qi p0", "qi p1", f"qa {A0} ?", f"qa {A1} ?", "qs s1", "qw s1 0", "qw s2 0"]
 
 
 def stale_shape(lines) -> bool:
@@ -700,7 +706,7 @@ def exhaustive(ctx: Ctx, depth: int, use_model: bool, alphabet=None):
             # symmetry / redundancy pruning: a sequence that starts with a query on the empty graph adds nothing
             if combo[0][0] == "q" and d > 1:
                 continue
-            batch.append([caps] + list(combo) + EXH_SWEEP + EXH_SWEEP[:13])
+            batch.append([caps] + list(combo) + EXH_SWEEP + EXH_AGAIN)
             if len(batch) >= 20000:
                 run_batch(ctx, batch, f"exhaustive", use_model)
                 batch = []
@@ -732,7 +738,7 @@ def run(ctx: Ctx):
     exhaustive(ctx, ctx.scale(3, 4), use_model)
     rng = ctx.rng
     seqs = []
-    for i in range(ctx.scale(1500, 20000)):
+    for i in range(ctx.scale(1500, 10000)):
         length = rng.choice([10, 20, 40, 80, 200]) if i % 10 else 200
         seqs.append(random_sequence(rng, length, rng.choice([3, 3, 4, 5])))
         if len(seqs) >= 2000:
@@ -741,7 +747,7 @@ def run(ctx: Ctx):
     run_batch(ctx, seqs, "random", use_model)
     if ctx.thorough():
         # deeper enumeration over a reduced alphabet
-        small = [EXH_ALPHABET[i] for i in (0, 1, 2, 4, 6, 8, 10, 11, 12, 14, 15, 17)]
+        small = [EXH_ALPHABET[i] for i in (0, 1, 4, 6, 8, 10, 11, 12, 14, 17)]
         exhaustive(ctx, 5, use_model, small)
 
 
